@@ -1,6 +1,7 @@
 use crate::engine::Property;
 
 pub mod c01;
+pub mod c02;
 pub mod c03;
 pub mod c04;
 pub mod c05;
@@ -22,6 +23,7 @@ pub mod c20;
 pub fn lookup(id: &str) -> Option<Property> {
     Some(match id {
         "C01" => c01::property(),
+        "C02" => c02::property(),
         "C03" => c03::property(),
         "C04" => c04::property(),
         "C05" => c05::property(),
